@@ -26,6 +26,8 @@ PairFailed(ev) ==
               THEN {"contains/every_spelling_of_containment_agrees"} ELSE {})
         \cup (IF ev.di.exc = "" /\ ev.di.v # Dist(R, ev.a, ev.b) THEN {"dist/distance_is_bases_between"} ELSE {})
         \cup (IF ev.cn.exc = "" THEN Tag("connect", Only(ConnectClause(R, X, ev.cn.v))) ELSE {})
+        \cup Exc("connect", ev.cn1)
+        \cup (IF ev.cn1.exc = "" THEN Tag("connect_one", Only(ConnectClause(R, {ev.a}, ev.cn1.v))) ELSE {})
         \cup (IF ev.cn.exc = "" /\ ev.cn2.exc = "" /\ ev.cn2.v # ev.cn.v THEN {"connect/argument_order_independent"} ELSE {})
         \cup (IF ev.cn.exc = "" /\ ev.cnt.exc = "" /\ ev.cnt.v # ev.cn.v THEN {"connect/idempotent"} ELSE {})
 
